@@ -3465,4 +3465,88 @@ theorem touchAddr_of_counted (w : World) (n : Nat) (t : Typ) (tr : Bool) (e : Ev
   | tfail o => simp [touchAddr, hd]
 
 
+/-! ## exactness along a run of consecutive failures -/
+
+def SameClock (w w' : World) : Prop := w'.now = w.now ∧ w'.supCount = w.supCount ∧ w'.supUntil = w.supUntil
+
+theorem sameClock_suppressed {w w' : World} (h : SameClock w w') : w'.suppressed = w.suppressed := by
+  unfold World.suppressed; rw [h.1, h.2.1, h.2.2]
+
+theorem escalateFrom_clock (ts : List Typ) (n : Nat) (o : Oracle) : ∀ w : World, SameClock w (escalateFrom ts w n o).1 := by
+  induction ts with
+  | nil => intro w; exact ⟨rfl, rfl, rfl⟩
+  | cons t ts ih =>
+    intro w
+    simp only [escalateFrom]
+    obtain ⟨a, b, c⟩ := ih (markForced w n t o).1
+    exact ⟨a, b, c⟩
+
+theorem recordFailure_clock (w : World) (a : Nat) : SameClock w (recordFailure w a).1 := by
+  unfold recordFailure cleanupFailures
+  simp only
+  split <;> split <;> exact ⟨rfl, rfl, rfl⟩
+
+theorem markUnavail_clock (w : World) (n : Nat) (t : Typ) (tr : Bool) (o : Oracle) :
+    SameClock w (markUnavail w n t tr o).1 := by
+  unfold markUnavail
+  split
+  · exact ⟨rfl, rfl, rfl⟩
+  · simp only
+    split
+    · split
+      · obtain ⟨a, b, c⟩ := escalateFrom_clock escalationTyps n o
+          (recordFailure (w.setNode n ((w.nodes n).counted t tr)) (w.nodes n).addr).1
+        obtain ⟨a', b', c'⟩ := recordFailure_clock (w.setNode n ((w.nodes n).counted t tr)) (w.nodes n).addr
+        exact ⟨a.trans a', b.trans b', c.trans c'⟩
+      · exact recordFailure_clock (w.setNode n ((w.nodes n).counted t tr)) (w.nodes n).addr
+    · exact ⟨rfl, rfl, rfl⟩
+
+/-- one counted failure strictly below the threshold: the slot keeps its flag and the counter grows by one -/
+theorem markUnavail_below (w : World) (n : Nat) (t : Typ) (tr : Bool) (o : Oracle) (hs : w.suppressed = false)
+    (hc : cnt tr (w.nodes n) t.idx + 1 < threshold t.isUdp tr) :
+    ((markUnavail w n t tr o).1.nodes n).alive t.idx = (w.nodes n).alive t.idx ∧
+    cnt tr ((markUnavail w n t tr o).1.nodes n) t.idx = cnt tr (w.nodes n) t.idx + 1 := by
+  have hsame : ((w.nodes n).counted t tr).alive t.idx = (w.nodes n).alive t.idx := by
+    cases tr <;> simp [Node.counted, cnt] at hc ⊢ <;> omega
+  have hne : escalates w n t tr = false := by
+    unfold escalates; simp only [hsame]; cases (w.nodes n).alive t.idx <;> simp
+  rw [markUnavail_nodes]
+  simp only [hs, Bool.false_eq_true, if_false, hne, upd_same]
+  refine ⟨hsame, ?_⟩
+  cases tr <;> simp [Node.counted, cnt]
+
+def failEvent (n : Nat) (t : Typ) (tr : Bool) (o : Oracle) : Event :=
+  if tr then .tfail n t false o else .txn n t false o
+
+theorem step_failEvent (w : World) (n : Nat) (t : Typ) (tr : Bool) (o : Oracle) :
+    step w (failEvent n t tr o) = markUnavail w n t tr o := by
+  cases tr <;> simp [failEvent, step]
+
+theorem run_replicate_succ (w : World) (e : Event) (j : Nat) :
+    (run w (List.replicate (j + 1) e)).1 = (step (run w (List.replicate j e)).1 e).1 := by
+  induction j generalizing w with
+  | zero => simp [run]
+  | succ j ih =>
+    rw [List.replicate_succ, run]
+    simp only
+    rw [ih]
+    rw [List.replicate_succ, run]
+
+theorem consecutive_below (w : World) (n : Nat) (t : Typ) (tr : Bool) (o : Oracle) (hs : w.suppressed = false)
+    (hc : cnt tr (w.nodes n) t.idx = 0) : ∀ j, j < threshold t.isUdp tr →
+    (run w (List.replicate j (failEvent n t tr o))).1.suppressed = false ∧
+    ((run w (List.replicate j (failEvent n t tr o))).1.nodes n).alive t.idx = (w.nodes n).alive t.idx ∧
+    cnt tr ((run w (List.replicate j (failEvent n t tr o))).1.nodes n) t.idx = j := by
+  intro j
+  induction j with
+  | zero => intro _; exact ⟨hs, rfl, hc⟩
+  | succ j ih =>
+    intro hj
+    obtain ⟨i1, i2, i3⟩ := ih (by omega)
+    rw [run_replicate_succ, step_failEvent]
+    have hb := markUnavail_below _ n t tr o i1 (by rw [i3]; exact hj)
+    refine ⟨?_, hb.1.trans i2, by rw [hb.2, i3]⟩
+    rw [sameClock_suppressed (markUnavail_clock _ n t tr o)]; exact i1
+
+
 end DaeVerif.C16
